@@ -37,8 +37,15 @@ func (r *Runner) verifSetup(re *Regexp, rt []rune, textstart int) {
 // start (one further after an empty previous match), with no candidate finder, no prefix
 // filter, no minimum-length cut-off and no bump-along shortcut. origin is what \G is bound to.
 func (re *Regexp) VerifNaiveScan(rt []rune, start, origin, previousMatchLength int) (*Match, error) {
-	r := re.getRunner()
-	defer re.putRunner(r)
+	m, _, err := re.VerifNaiveScanCap(rt, start, origin, previousMatchLength)
+	return m, err
+}
+
+// VerifNaiveScanCap is VerifNaiveScan on a fresh interpreter state; it also reports the capacity the
+// backtracking stack had grown to when the scan ended.
+func (re *Regexp) VerifNaiveScanCap(rt []rune, start, origin, previousMatchLength int) (m *Match, trackCap int, err error) {
+	r := &Runner{re: re, code: re.code}
+	defer func() { trackCap = len(r.runtrack) }()
 	r.verifSetup(re, rt, origin)
 	stoppos, bump := len(rt), 1
 	if re.RightToLeft() {
@@ -49,7 +56,7 @@ func (re *Regexp) VerifNaiveScan(rt []rune, start, origin, previousMatchLength i
 	if previousMatchLength == 0 {
 		if pos == stoppos {
 			r.tidyMatch(true)
-			return nil, nil
+			return nil, 0, nil
 		}
 		pos += bump
 	}
@@ -57,17 +64,17 @@ func (re *Regexp) VerifNaiveScan(rt []rune, start, origin, previousMatchLength i
 	for {
 		r.Runtextpos = pos
 		if err := executeDefault(r); err != nil {
-			return nil, err
+			return nil, 0, err
 		}
 		if r.runmatch.matchcount[0] > 0 {
-			return r.tidyMatch(false), nil
+			return r.tidyMatch(false), 0, nil
 		}
 		r.Runtrackpos = len(r.runtrack)
 		r.Runstackpos = len(r.runstack)
 		r.runcrawlpos = len(r.runcrawl)
 		if pos == stoppos {
 			r.tidyMatch(true)
-			return nil, nil
+			return nil, 0, nil
 		}
 		pos += bump
 	}
